@@ -239,6 +239,10 @@ def outer_checks(ctx, make, label, ops, payload, state_ok):
                                       'outer_case', payload)
 
 
+class NoMemberState(Exception):
+    """the composition's preconditions cannot be met on its grid (e.g. a 1x1 grid that must hold a unique object and a beacon)"""
+
+
 def member_reset_factory(comp_seed, fixed=False):
     """composition whose reset function returns random member states (nested boxes, doors of every status, held items):
     states the built-in reset functions never produce, driven through the stateful interface"""
@@ -260,7 +264,7 @@ def member_reset_factory(comp_seed, fixed=False):
                 if st is not None:
                     workloads.steer(comp, srng, st)
                     return st
-            raise RuntimeError('no member state')
+            raise NoMemberState('no member state')
         return comp.build(reset)
     return make
 
@@ -352,6 +356,11 @@ def run(ctx):
                 # fixed: the same composition with a reset function that always returns an equal state, and many resets
                 payload = {'member_comp': ctx.seed * 31 + k, 'seed': seed, 'n_ops': 60, 'k': k, 'fixed': fixed}
                 ops = member_ops(k, fixed)
+                try:
+                    member_make(payload)().functional_reset()
+                except NoMemberState:
+                    ctx.add('compositions_without_member_state')
+                    continue
                 run_sequence(ctx, member_make(payload), f'{"fixed-reset" if fixed else "member-state"} composition#{ctx.seed * 31 + k}',
                              ops, False, payload)
                 ctx.hit('sequences')
